@@ -9,6 +9,8 @@ Line protocol (one answer line per input line):
   link <bw> <enA> <enB>          append a wired link                      -> ok
   chan <cap0,cap1,...> <en0> <en1> ...   append a wireless channel (hz); cap_i = capacity of interface i's frequency name -> ok
   tick                           Network.pre_timestep                     -> dump
+  setbw <k> <v>                  link k: bandwidth := v                   -> ok
+  setcap <c> <i> <v>             channel c, interface i: capacity of its frequency name := v -> ok
   act <event tokens>             one top-level action (a forest)          -> records ` | ` dump
   dump                                                                    -> dump
   reset                          (handled by runDriver)                   -> ok
@@ -19,15 +21,21 @@ event tokens:   S k a s acc [ events ]     wired send on link k from end A (a=1)
                 W c i s [ events ]         wireless send on channel c from interface i
                 E k a v                    wired interface enable/disable took effect
                 F c i v                    wireless interface enable/disable took effect
+                L k a s [ events ]         wired send that never returned (an exception unwound through transmit_frame)
+                M c i s [ events ]         wireless send that never returned (an exception unwound through AirSpace.transmit)
+                R c i j                    (inside a wireless send by i) the loop of AirSpace.transmit hands the frame to interface j
 -/
 
 def showVerdict : Verdict → String
   | .nolink => "nolink" | .disabled => "disabled" | .down => "down" | .full => "full"
-  | .rejected => "rejected" | .carried => "carried"
+  | .rejected => "rejected" | .carried => "carried" | .lost => "lost" | .heard => "heard" | .deaf => "deaf"
 
 def showRec (r : Rec) : String :=
-  if r.wireless then
-    s!"W{r.k}:{showVerdict r.verdict}:{showBool r.enS}:{",".intercalate (r.rcv.map toString)}:{r.load}"
+  if r.verdict == .heard || r.verdict == .deaf then
+    -- one turn of the loop of AirSpace.transmit: channel, interface reached, does it hear the frame
+    s!"H{r.k}:{",".intercalate (r.rcv.map toString)}:{showVerdict r.verdict}"
+  else if r.wireless then
+    s!"W{r.k}:{showVerdict r.verdict}:{showBool r.enS}:{r.load}"
   else
     s!"S{r.k}:{showVerdict r.verdict}:{showBool r.enS}{showBool r.enR}:{r.load}"
 
@@ -48,6 +56,18 @@ def parseEv : Nat → List String → Option (Ev × List String)
     match c.toNat?, i.toNat?, s.toNat?, parseEvs fuel rest with
     | some c, some i, some s, some (nested, rest') => some (.wsend c i s nested, rest')
     | _, _, _, _ => none
+  | fuel + 1, "L" :: k :: a :: s :: "[" :: rest =>
+    match k.toNat?, parseBool a, s.toNat?, parseEvs fuel rest with
+    | some k, some a, some s, some (nested, rest') => some (.lost k a s nested, rest')
+    | _, _, _, _ => none
+  | fuel + 1, "M" :: c :: i :: s :: "[" :: rest =>
+    match c.toNat?, i.toNat?, s.toNat?, parseEvs fuel rest with
+    | some c, some i, some s, some (nested, rest') => some (.wlost c i s nested, rest')
+    | _, _, _, _ => none
+  | _ + 1, "R" :: c :: i :: j :: rest =>
+    match c.toNat?, i.toNat?, j.toNat? with
+    | some c, some i, some j => some (.wrecv c i j, rest)
+    | _, _, _ => none
   | _ + 1, "E" :: k :: a :: v :: rest =>
     match k.toNat?, parseBool a, parseBool v with
     | some k, some a, some v => some (.setEn k a v, rest)
@@ -92,6 +112,14 @@ def step' (n : Net) : List String → Net × String
       if caps.length == en.length then ({ n with chans := n.chans ++ [{ caps, load := 0, en }] }, "ok") else (n, "bad-op")
     | _, _ => (n, "bad-op")
   | ["tick"] => let r := step n .tick; (r.1, dump r.1)
+  | ["setbw", k, v] =>
+    match k.toNat?, v.toNat? with
+    | some k, some v => let r := step n (.setBw k v); (r.1, "ok")
+    | _, _ => (n, "bad-op")
+  | ["setcap", c, i, v] =>
+    match c.toNat?, i.toNat?, v.toNat? with
+    | some c, some i, some v => let r := step n (.setCap c i v); (r.1, "ok")
+    | _, _, _ => (n, "bad-op")
   | "act" :: toks =>
     match parseEvs (2 * toks.length + 2) toks with
     | some (evs, []) =>
